@@ -83,8 +83,11 @@ pred wmInv(wm) := wm.lastSentWatermark <= wm.currentWatermark && wm.maxEventTime
 func (*Watermark).sendWatermarkLocked
   props C02
   held wm.mu
+  option channel_events
   requires wm.lastSentWatermark <= wm.currentWatermark
-  modifies wm.lastSentWatermark
+  modifies wm.lastSentWatermark, ghost(sends)
+  ensures [C02 C08 C10] recorded-only-when-delivered: wm.lastSentWatermark != old(wm.lastSentWatermark) ==> ghost(sends) == old(ghost(sends)) + 1
+  ensures [C02 C08 C10] nothing-pending-means-no-send: wm.currentWatermark <= old(wm.lastSentWatermark) ==> ghost(sends) == old(ghost(sends))
   ensures sent-is-current: wm.lastSentWatermark == old(wm.lastSentWatermark) || wm.lastSentWatermark == wm.currentWatermark
   ensures bounded: wm.lastSentWatermark <= wm.currentWatermark
   ensures monotone: wm.lastSentWatermark >= old(wm.lastSentWatermark)
@@ -92,7 +95,7 @@ func (*Watermark).sendWatermarkLocked
 func (*Watermark).UpdateEventTime
   props C01 C02
   acquires wm.mu
-  modifies wm.lastEventTime, wm.maxEventTime, wm.currentWatermark, wm.lastSentWatermark
+  modifies wm.lastEventTime, wm.maxEventTime, wm.currentWatermark, wm.lastSentWatermark, ghost(sends)
   ensures monotone: wm.currentWatermark >= old(wm.currentWatermark)
   ensures max-monotone: zero(old(wm.maxEventTime)) || wm.maxEventTime >= old(wm.maxEventTime)
   ensures future-ignored: eventTime > now() + wm.maxOutOfOrderness + 86400000000000 ==> wm.maxEventTime == old(wm.maxEventTime) && wm.currentWatermark == old(wm.currentWatermark)
@@ -103,7 +106,7 @@ func (*Watermark).UpdateEventTime
 func (*Watermark).update
   props C02
   acquires wm.mu
-  modifies wm.currentWatermark, wm.lastSentWatermark
+  modifies wm.currentWatermark, wm.lastSentWatermark, ghost(sends)
   ensures monotone: wm.currentWatermark >= old(wm.currentWatermark)
   ensures no-idle: wm.idleTimeout <= 0 ==> wm.currentWatermark == old(wm.currentWatermark) || wm.currentWatermark == wm.maxEventTime - wm.maxOutOfOrderness
   ensures untouched-before-first-event: zero(wm.maxEventTime) ==> wm.currentWatermark == old(wm.currentWatermark)
